@@ -36,3 +36,15 @@ Example C09_boundary_rw : req_size (ReqReadWriteMultipleRegisters 0 1 0 (repeat 
 Proof. split; vm_compute; reflexivity. Qed.
 Example C09_boundary_server_id : rsp_size (RspReportServerId 1 true (repeat 0 249)) = 253 /\ rsp_size (RspReportServerId 1 true (repeat 0 250)) = 254.
 Proof. split; vm_compute; reflexivity. Qed.
+
+(* the same for the other three framings: what goes out is the header, the untruncated spec PDU and
+   (RTU) its CRC, for every request / response of at most 253 bytes *)
+Theorem C09_rtu_request_frame_intact : forall m tid uid r, req_ok r = true -> req_size r <= 253 ->
+  rtu_client_enc m (tid, uid) r = Val (rtu_frame uid (spec_req_pdu r)).
+Proof. exact client_frame_rtu. Qed.
+Theorem C09_tcp_response_frame_intact : forall m tid uid r, rsp_ok r = true -> rsp_size r <= 253 -> tid < 65536 ->
+  tcp_server_enc m (tid, uid) (RROk r) = Val (TcpProofs.tcp_frame tid uid (spec_rsp_pdu r)).
+Proof. exact server_frame_tcp. Qed.
+Theorem C09_rtu_response_frame_intact : forall m tid uid r, rsp_ok r = true -> rsp_size r <= 253 ->
+  rtu_server_enc m (tid, uid) (RROk r) = Val (rtu_frame uid (spec_rsp_pdu r)).
+Proof. exact server_frame_rtu. Qed.
